@@ -272,7 +272,8 @@ func badRowsFor(file string, k int) []badRow {
 			{"unparseable-date", map[string]string{"service_id": "SV0", "end_date": "20230231"}}, {"blank-required", map[string]string{"service_id": "SV0", "monday": ""}}}
 	case "calendar_dates.txt":
 		return []badRow{{"blank-required", map[string]string{"service_id": ""}}, {"unparseable-date", map[string]string{"service_id": "SV0", "date": "20231301"}},
-			{"unparseable-date", map[string]string{"service_id": id, "date": ""}}, {"blank-required", map[string]string{"service_id": "SV0", "date": "19990101", "exception_type": ""}}}
+			{"unparseable-date", map[string]string{"service_id": id, "date": ""}}, {"blank-required", map[string]string{"service_id": "SV0", "date": "19990101", "exception_type": ""}},
+			{"unknown-exception-type", map[string]string{"service_id": id, "date": "20230505", "exception_type": "3"}}, {"unknown-exception-type", map[string]string{"service_id": "SV0", "date": "19990102", "exception_type": "0"}}}
 	case "shapes.txt":
 		return []badRow{{"blank-required", map[string]string{"shape_id": ""}}, {"unparseable-number", map[string]string{"shape_pt_lat": "north"}},
 			{"unparseable-number", map[string]string{"shape_pt_lon": "1e999"}}, {"unparseable-number", map[string]string{"shape_pt_sequence": "1.5"}}, {"blank-required", map[string]string{"shape_pt_sequence": ""}},
@@ -286,6 +287,7 @@ func badRowsFor(file string, k int) []badRow {
 	case "frequencies.txt":
 		return []badRow{{"blank-required", map[string]string{"trip_id": ""}}, {"unknown-reference", map[string]string{"trip_id": "NOPE"}},
 			{"unparseable-number", map[string]string{"headway_secs": "x"}}, {"unparseable-time", map[string]string{"start_time": "1:2:3:4"}}, {"blank-required", map[string]string{"end_time": ""}},
+			{"unparseable-time", map[string]string{"end_time": "25:xx:00"}}, {"unparseable-time", map[string]string{"end_time": "soon"}}, {"unparseable-time", map[string]string{"start_time": "-1:00:00"}},
 			{"number-out-of-range", map[string]string{"headway_secs": "4294967596"}}, {"number-out-of-range", map[string]string{"headway_secs": "2147483648"}},
 			{"number-out-of-range", map[string]string{"headway_secs": "-2147483649"}}}
 	case "stop_times.txt":
